@@ -895,12 +895,15 @@ type wsStallSpec struct {
 	Opt        wsOpt            `json:"opt"`
 	Conn       simrt.SimConnCfg `json:"conn"`
 	StallAfter int              `json:"stall_after_ms"`
+	// Idle: the handler emits nothing; the only relay writes are pings (the write
+	// that blocks is then a ping frame)
+	Idle bool `json:"idle,omitempty"`
 }
 
 func wsStallRun(t *testing.T, sp *wsStallSpec, sched simrt.Schedule) *simrt.Result {
 	return simrt.Run(t, sched, 3000000, func(sim *simrt.Sim) {
 		st := &sim.Res.Stats
-		h := &wsHandler{sim: sim, flood: true}
+		h := &wsHandler{sim: sim, flood: !sp.Idle}
 		relay := mocrelay.NewRelay(h, relayOpt(sp.Opt))
 		mux := &mocrelay.ServeMux{Relay: relay}
 		srvCtx, srvCancel := context.WithCancel(context.Background())
@@ -935,8 +938,45 @@ func wsStallRun(t *testing.T, sp *wsStallSpec, sched simrt.Schedule) *simrt.Resu
 		st.Fault("conn-stall")
 		sendTimeout := time.Duration(sp.Opt.SendTimeoutMs) * time.Millisecond
 		// find the moment a server write starts to block
+		if sp.Idle {
+			// nothing but pings is written. The connection buffers a ping frame, so
+			// no write blocks; the ping that gets no pong must end the session one
+			// send timeout after it was sent (first tick after the stall at the latest)
+			if sp.Opt.PingMs == 0 {
+				st.Probe("idle_without_ping_nothing_to_block")
+				sim.Advance(3 * time.Second)
+				link.ResumeS2C()
+				cancel()
+				srvCancel()
+				sim.Drive()
+				st.Completed = true
+				return
+			}
+			limit := time.Duration(sp.Opt.PingMs)*time.Millisecond + sendTimeout + 1500*time.Millisecond
+			for el := time.Duration(0); el < limit && !link.Served.Load(); el += 100 * time.Millisecond {
+				sim.Advance(100 * time.Millisecond)
+			}
+			if !link.Served.Load() {
+				sim.Advance(5 * time.Minute)
+				cls := "stalled-peer-dropped-late"
+				if !link.Served.Load() {
+					cls = "stalled-peer-not-dropped"
+				}
+				sim.Violate("C13", cls, map[string]string{"ping": "enabled", "traffic": "idle"},
+					"the peer stopped reading on an idle connection; with PingDuration=%dms and SendTimeout=%v the session was still alive %v later (the unanswered ping must end it)", sp.Opt.PingMs, sendTimeout, limit)
+			} else {
+				st.Probe("idle_stalled_peer_dropped_by_ping")
+			}
+			link.ResumeS2C()
+			cancel()
+			srvCancel()
+			sim.Drive()
+			st.Completed = true
+			return
+		}
 		var blockedAt time.Time
-		for i := 0; i < 400; i++ {
+		polls := 400
+		for i := 0; i < polls; i++ {
 			sim.Drive()
 			if since, blocked := link.Server.BlockedSince(); blocked {
 				// blocked means: the write in progress did not complete during a
@@ -959,7 +999,14 @@ func wsStallRun(t *testing.T, sp *wsStallSpec, sched simrt.Schedule) *simrt.Resu
 			return
 		}
 		if blockedAt.IsZero() {
-			sim.Res.Harness = "the flooding handler never made a server write block"
+			if sp.Idle && sp.Opt.PingMs == 0 {
+				// no handler output and no pings: the relay writes nothing, so there
+				// is no blocked write the property speaks about
+				st.Probe("idle_without_ping_nothing_to_block")
+				st.Completed = true
+				return
+			}
+			sim.Res.Harness = "no server write ever blocked although the peer stopped reading"
 			return
 		}
 		deadline := blockedAt.Add(sendTimeout)
